@@ -114,7 +114,7 @@ theorem C20_exit_incomplete (p : Peer) (w : Wire) (method : String) (args : Opti
     (runCall p w method args true).report = some .failed := by
   have hsend := send_ok p false true false
     { conn := {}, call := { MCall.new method (args.getD .null) with continues := true }, wire := w }
-    method (args.getD .null) rfl rfl rfl hcw
+    method (args.getD .null) rfl rfl rfl rfl hcw
   simp only [Bool.false_eq_true, if_false] at hsend
   have hqueue : (w.accept p (mkRequest method (args.getD .null) false true false)).queue = rs.map Msg.reply := by
     simp [Wire.accept, hempty, hopen, hans]
